@@ -112,11 +112,15 @@ let handle kind fs obs =
             chk exp got)
          | "nomatch" -> field ofs "match" = "0"
          | _ -> true) in
-       (* oracle 2 (theorem 3a, as a check of the implementation): for an AST without braces and alternatives whose last item
-          constrains something, the verdict is the one of the structural semantics [den_top] and the save array is the
-          initial one with the log's captures stored *)
-       let (ok2, tag2) = (match List.assoc_opt "ast" fs with
-         | None -> (true, "")
+       (* oracle 2 (theorems 3a and 3b, as a check of the implementation): the structural semantics [den_top] of the AST.
+          - AST without braces and alternatives whose last item constrains something (3a): exact verdict, and the save array
+            is the initial one with the log's captures stored.
+          - any other AST whose compiled form [compile a] is the atom list that was executed and loses nothing but the returns of
+            closing braces to the parser's trimming (3b): exact
+            verdict, the array keeps its length and every slot the log writes holds what the log applied to the initial
+            array holds there. For an AST in the known class F34 the same comparison is made and reported under the class. *)
+       let (ok2, tag2, cls) = (match List.assoc_opt "ast" fs with
+         | None -> (true, "", None)
          | Some toks ->
            let (a, _, _) = ast_seq (split_on ',' toks) [] in
            let flat = List.for_all (function ISub _ | IAlt _ -> false | _ -> true) a in
@@ -125,12 +129,29 @@ let handle kind fs obs =
              | (IByte _ | ISave | IRead _ | IZero | IAlign _ | IJump _) :: _ -> true
              | IStr (_ :: _) :: _ -> true
              | _ -> false) in
-           if not (flat && solid) then (true, "")
-           else
-             let ofs = fields (String.split_on_char ' ' obs) in
-             (match den_top (scan_of_view v) a (n_of_string (field fs "cursor")) with
-              | Some lg -> (field ofs "match" = "1" && field ofs "save" = join "," (List.map string_of_n (apply_log lg save0)), ",den-match")
-              | None -> (field ofs "match" = "0", ",den-nomatch"))) in
-       (mobs, ok && ok2, true, Printf.sprintf "exec,%s,%s%s" expect (if fmt64 then "pe64" else "pe32") tag2, None))
+           let ofs = fields (String.split_on_char ' ' obs) in
+           let cursor = n_of_string (field fs "cursor") in
+           if bang then (true, "", None)
+           else if flat && solid then
+             (match den_top (scan_of_view v) a cursor with
+              | Some lg -> (field ofs "match" = "1" && field ofs "save" = join "," (List.map string_of_n (apply_log lg save0)), ",den-match", None)
+              | None -> (field ofs "match" = "0", ",den-nomatch", None))
+           else if compile a = atoms && trims_only_braces a then begin
+             let in_class = range_skip_in_last_alternative_with_suffix a in
+             let cls = if in_class then Some "range_skip_in_last_alternative_with_suffix" else None in
+             let shape = (if in_class then ",f34-class" else if noalt a then ",den-sub" else ",den-alt") in
+             (match den_top (scan_of_view v) a cursor with
+              | Some lg ->
+                let want = Array.of_list (List.map string_of_n (apply_log lg save0)) in
+                let got = Array.of_list (split_on ',' (field ofs "save")) in
+                let got = if slots = 0 then [||] else got in
+                let written = List.map (fun (i, _) -> int_of_n i) lg in
+                let slots_ok = Array.length got = Array.length want &&
+                  List.for_all (fun i -> i >= Array.length want || got.(i) = want.(i)) written in
+                (field ofs "match" = "1" && slots_ok, shape ^ "-match", cls)
+              | None -> (field ofs "match" = "0", shape ^ "-nomatch", cls))
+           end
+           else (true, ",den-skip", None)) in
+       (mobs, ok && ok2, true, Printf.sprintf "exec,%s,%s%s" expect (if fmt64 then "pe64" else "pe32") tag2, cls))
   | _ -> ("!unknown-kind", false, false, "unknown", None)
 let () = run_driver handle
